@@ -8,7 +8,7 @@
    One JSON schedule per behaviour is printed after MaxSteps steps. *)
 EXTENDS Speaker, SpeakerDom, Json
 
-CONSTANTS MaxSteps, WithPolicy, Warm
+CONSTANTS MaxSteps, WithPolicy, Warm, Chaos
 
 VARIABLES stalled, held, hist
 gvars == <<up, inr, loc, impPol, expPol, inrPol, expEff, stalled, held, hist>>
@@ -74,11 +74,19 @@ GRefresh(p) == up[p] /\ p \notin held /\ PResetOut({p}) /\ Log([ev |-> "Refresh"
 GPolicy == WithPolicy /\ held = {} /\
            (GSetImp \/ GSetExp \/ GResetIn \/ GResetOut \/ GResetBoth \/ \E p \in Peers : GRefresh(p))
 
+(* C20: management operations thrown in concurrently (free-running mode only; they do not change
+   the property-layer state that the C20 invariants look at) *)
+OpKinds == {"ListPath", "ListPeer", "WatchStart", "WatchStop", "Disable", "Enable", "DelPeer", "AddPeer"}
+GOp == Chaos /\ LET k == RandomElement(OpKinds)
+                    q == RandomElement(Peers)
+                IN Log([ev |-> "Op", k |-> k, p |-> q]) /\ UNCHANGED <<up, inr, loc, polvars, stalled, held>>
+
 GNext == /\ Len(hist) < MaxSteps
          /\ \/ \E p \in Peers : GUp(p) \/ GUpHold(p) \/ GRelease(p) \/ GDown(p)
                                 \/ GAnn(p) \/ GAnn(p) \/ GWd(p) \/ GStall(p) \/ GResume(p)
             \/ GApiAdd \/ GApiDel
             \/ GPolicy \/ GPolicy
+            \/ GOp \/ GOp
 
 GSpec == GInit /\ [][GNext]_gvars
 
